@@ -58,11 +58,11 @@ def make_event(cfg):
 
 
 def ops_fn(cfg, hist):
-    ops = [("int",), ("intT", 0.5), ("ev",), ("fault", 2)]
+    ops = [("int",), ("intT", 0.5), ("ev",), ("fault", 2), ("faultev", 9), ("faultev", 1)]
     if any(o[0] == "ev" for o in hist):
         ops = [o for o in ops if o[0] != "ev"]
-    if any(o[0] == "fault" for o in hist):
-        ops = [o for o in ops if o[0] != "fault"]
+    if any(o[0] in ("fault", "faultev") for o in hist):
+        ops = [o for o in ops if o[0] not in ("fault", "faultev")]
     if any(o[0] == "intT" for o in hist):
         ops = [o for o in ops if o[0] != "intT"]
     return ops
@@ -93,6 +93,16 @@ def apply_op(a, cfg, op, dtype):
                 if st["n"] == op[1]:
                     raise Boom()
             a.integrate(dtype(tf), callback=[cb, b])
+        elif op[0] == "faultev":
+            # 'after failures': the fault comes from an event function, i.e. after the integrator has completed a trial step that the system then discards
+            st = dict(n=0)
+
+            def gev(t, y, **kw):
+                st["n"] += 1
+                if st["n"] == op[1]:
+                    raise Boom()
+                return np.asarray(y[0] - 7.0)      # never crosses: |y| <= 1
+            a.integrate(dtype(tf), events=[gev], callback=b)
     except de.exception_types.FailedIntegration as e:
         obs["raised"] = "budget" if driver.budget_hit(e) else ("boom" if isinstance(e.__cause__, Boom) else repr(e.__cause__)[:160])
     obs["i1"] = len(a) - 1
